@@ -1601,6 +1601,7 @@ fn vault_inner(cx: &mut Cx, net: &RealNet, n: usize) -> Option<()> {
     #[derive(Clone, Copy, Debug, PartialEq)]
     enum Class {
         Authentic,
+        Blank,
         Unsigned,
         BadSignature,
         ForeignOwner,
@@ -1615,18 +1616,20 @@ fn vault_inner(cx: &mut Cx, net: &RealNet, n: usize) -> Option<()> {
         let class = if honest_only {
             Class::Authentic
         } else if none_authentic {
-            *[Class::Unsigned, Class::BadSignature, Class::ForeignOwner, Class::Garbage].choose(&mut cx.rng).expect("nonempty")
+            *[Class::Unsigned, Class::Blank, Class::BadSignature, Class::ForeignOwner, Class::Garbage].choose(&mut cx.rng).expect("nonempty")
         } else {
-            *[Class::Authentic, Class::Authentic, Class::Unsigned, Class::BadSignature, Class::ForeignOwner, Class::Garbage].choose(&mut cx.rng).expect("nonempty")
+            *[Class::Authentic, Class::Authentic, Class::Unsigned, Class::Blank, Class::BadSignature, Class::ForeignOwner, Class::Garbage].choose(&mut cx.rng).expect("nonempty")
         };
-        let plaintext: Vec<u8> = format!("version-{i}-{}", hex(&gen::bytes(&mut cx.rng, 6))).into_bytes();
+        let plaintext: Vec<u8> = if class == Class::Blank { vec![] } else { format!("version-{i}-{}", hex(&gen::bytes(&mut cx.rng, 6))).into_bytes() };
         let counter = match class {
+            Class::Blank => 0,
             Class::Authentic => base + cx.rng.gen_range(0..6),
             _ => *[base + 50, u64::MAX, base, 0].choose(&mut cx.rng).expect("nonempty"),
         };
         let cipher = owner.public_key().encrypt_with_rng(&mut cx.rng, &plaintext).to_bytes();
         let value = match class {
             Class::Authentic => gen::pad_record(&gen::pad(&owner, counter, &cipher, 7)).value,
+            Class::Blank => gen::pad_record(&Scratchpad::new(owner.public_key(), 7)).value,
             Class::Unsigned => {
                 let mut raw = gen::RawPad::from_pad(&gen::pad(&owner, counter, &cipher, 7));
                 raw.signature = None;
